@@ -218,8 +218,20 @@ def write_program(path, sc, runs):
     return hdr, blocks
 
 
+SKIPPED = [0]
+
+
 def exec_program(exe, prog, logp, timeout=600):
     rc, so, se = run_driver(exe, [prog, logp], env=SAN_ENV, timeout=timeout)
+    if os.path.exists(logp):
+        # an operation of a generated sequence whose API precondition does not hold on the real table under THIS hash assignment (sequences are
+        # generated once and replayed under several assignments: e.g. next_duplicate after a walk that ended) is skipped by the driver, which
+        # logs a "precond" record instead of executing it; nothing was executed, so there is nothing to explain: the record is dropped
+        lines = open(logp).read().split("\n")
+        kept = [ln for ln in lines if not ln.startswith('{"op":"precond"')]
+        if len(kept) != len(lines):
+            SKIPPED[0] += len(lines) - len(kept)
+            open(logp, "w").write("\n".join(kept))
     return rc, se
 
 
@@ -259,6 +271,7 @@ def conformance(ctx, exe, sc, plat, runs, name, wd, kind):
     t0 = time.time()
     rc, se = exec_program(exe, prog, logp)
     t1 = time.time()
+    ctx.extra["operations_skipped_precondition_false_on_the_real_table"] = SKIPPED[0]
     spans = split_runs(logp) if os.path.exists(logp) else []
     if rc != 0:
         rid = spans[-1][2] if spans else 1
